@@ -50,7 +50,7 @@ without it. None is applied to /repo. To run the checks against one:
 (or `tools/try_mutant.py <id>` in a scratch worktree).
 
 Result: **every one of the @N@ is reported by the check of the property it breaks.**
-Thirteen were missed (or would have been, and were predicted before running) by the
+Fourteen were missed (or would have been, and were predicted before running) by the
 check of their own property at first and led to stronger rules - in no case was a
 rule loosened:
 * C07-c (a guard moved before the reads in the shared heartbeat parser): C07 now also
@@ -88,6 +88,12 @@ rule loosened:
   the code points inside DTLS handshake messages - seven rows added, anchored at the exported
   dispatcher - and a test on a *peeked* value now counts as a test on the bytes the peek read
   (`/no-overlap`), which is how the version is constrained there.
+* C11-a (the certificate-status type read only when `ext_len > 1` instead of `> 0`) had been
+  caught by the shape of its accessor; once `if n == 0 {None} else {Some(p)}` and `cond(n > 0, p)`
+  became one canonical form (section 3.1) the mutant and the reference had the same shape and the
+  mutant was missed by its own check - found by re-running the own-check matrix after the change.
+  C11 now compares, for every code point, the *conditions under which it is read at all* with the
+  reference grammar's, which is what the mutant actually changes.
 
 The column "caught by" lists every property check that reports the change (from
 `seeded/MATRIX.json`, all 18 checks run against every change); "rules" are the rules
